@@ -939,6 +939,8 @@ type scalarExec struct {
 	// visit, when set, sees every instruction of the blocks the outermost walk passes through, with a way to ask for
 	// the decided value of an operand
 	visit func(in ssa.Instruction, val func(ssa.Value) (int64, bool))
+	tables  map[*ssa.Global]map[int64]int64
+	tableOK map[*ssa.Global]bool
 }
 
 type execResult struct {
@@ -998,6 +1000,19 @@ func (x *scalarExec) value(v ssa.Value, env map[ssa.Value]int64, prev *ssa.Basic
 		if t.Op == token.SUB {
 			k, ok := x.value(t.X, env, prev, depth+1)
 			return narrow(-k, t.Type()), ok
+		}
+		if t.Op == token.MUL {
+			// an element of a package-level table (an array variable filled once by its initialiser and never written
+			// elsewhere): the value the initialiser stores at that index, the zero value otherwise
+			if ia, ok := t.X.(*ssa.IndexAddr); ok {
+				if g, isG := ia.X.(*ssa.Global); isG && g.Pkg == x.pkg {
+					if idx, okI := x.value(ia.Index, env, prev, depth+1); okI {
+						if tbl, okT := x.globalTable(g); okT {
+							return tbl[idx], true
+						}
+					}
+				}
+			}
 		}
 	case *ssa.BinOp:
 		a, ok1 := x.value(t.X, env, prev, depth+1)
@@ -1135,6 +1150,28 @@ func (x *scalarExec) run(fn *ssa.Function, b *ssa.BasicBlock, start int, env map
 		case *ssa.If:
 			k, ok := x.value(t.Cond, env, prev, depth)
 			if !ok {
+				// the loop's own continuation test (a rotated loop tests `i+1 < n` at the bottom): this turn is over
+				if depth == 0 && x.region != nil {
+					for _, s := range b.Succs {
+						if s == x.region || (s != b && s.Dominates(x.region)) {
+							res := execResult{Looped: true, PhiIn: map[*ssa.Phi]int64{}}
+							for _, in := range s.Instrs {
+								phi, isPhi := in.(*ssa.Phi)
+								if !isPhi {
+									break
+								}
+								for i, p := range s.Preds {
+									if p == b {
+										if kv, okv := x.value(phi.Edges[i], env, nil, depth); okv {
+											res.PhiIn[phi] = kv
+										}
+									}
+								}
+							}
+							return res
+						}
+					}
+				}
 				return execResult{GaveUp: true}
 			}
 			prev = b
@@ -1593,4 +1630,107 @@ func ownGeneration(c *Ctx, r *Report, rule string) {
 		}
 		r.check(n > 0 && len(bad) == 0, rule, name, c.pos(fn.Pos()), "captured once at the start", "Server.shutdown is read at %s: after an expired ShutdownContext and a restart the field holds the new generation's channel, so the old loop, when its handlers are finally done, closes the new one: the new generation's Shutdown returns while its handlers still run, and its serve call panics with 'close of closed channel'", strings.Join(bad, ", "))
 	}
+}
+
+// globalTable: the contents of a package-level array of small integers / booleans, as stored by the package
+// initialiser; ok only when nothing else in the package writes to the variable or takes its address.
+func (x *scalarExec) globalTable(g *ssa.Global) (map[int64]int64, bool) {
+	if x.tables == nil {
+		x.tables = map[*ssa.Global]map[int64]int64{}
+		x.tableOK = map[*ssa.Global]bool{}
+	}
+	if t, done := x.tables[g]; done {
+		return t, x.tableOK[g]
+	}
+	tbl := map[int64]int64{}
+	okAll := true
+	initFn := x.pkg.Func("init")
+	for _, m := range x.pkg.Members {
+		fn, isFn := m.(*ssa.Function)
+		if !isFn {
+			continue
+		}
+		for _, sub := range withAnon(fn) {
+			allInstrs(sub, func(in ssa.Instruction) {
+				for _, op := range in.Operands(nil) {
+					if *op != ssa.Value(g) {
+						continue
+					}
+					ia, isIA := in.(*ssa.IndexAddr)
+					if st, isSt := in.(*ssa.Store); isSt && st.Addr == ssa.Value(g) && fn == initFn {
+						// var t = [N]T{i: v, ...}: the literal is built in a local and stored whole
+						if ld, isLd := st.Val.(*ssa.UnOp); isLd && ld.Op == token.MUL {
+							if al, isAl := ld.X.(*ssa.Alloc); isAl && al.Referrers() != nil {
+								for _, ref := range *al.Referrers() {
+									ia2, isIA2 := ref.(*ssa.IndexAddr)
+									if !isIA2 {
+										continue
+									}
+									for _, r2 := range *ia2.Referrers() {
+										st2, isSt2 := r2.(*ssa.Store)
+										if !isSt2 {
+											continue
+										}
+										idx, ok1 := constIntOf(ia2.Index)
+										if !ok1 {
+											okAll = false
+											continue
+										}
+										if k, isK := constIntOf(st2.Val); isK {
+											tbl[idx] = k
+										} else if b, isB := constBool(st2.Val); isB {
+											if b {
+												tbl[idx] = 1
+											} else {
+												tbl[idx] = 0
+											}
+										} else {
+											okAll = false
+										}
+									}
+								}
+								continue
+							}
+						}
+						okAll = false
+						continue
+					}
+					if !isIA {
+						okAll = false // the variable escapes
+						continue
+					}
+					for _, ref := range *ia.Referrers() {
+						switch r := ref.(type) {
+						case *ssa.Store:
+							if r.Addr != ssa.Value(ia) || fn != initFn {
+								okAll = false
+								continue
+							}
+							idx, ok1 := constIntOf(ia.Index)
+							var val int64
+							ok2 := false
+							if k, isK := constIntOf(r.Val); isK {
+								val, ok2 = k, true
+							} else if b, isB := constBool(r.Val); isB {
+								ok2 = true
+								if b {
+									val = 1
+								}
+							}
+							if !ok1 || !ok2 {
+								okAll = false
+								continue
+							}
+							tbl[idx] = val
+						case *ssa.UnOp:
+						default:
+							okAll = false
+						}
+					}
+				}
+			})
+		}
+	}
+	x.tables[g], x.tableOK[g] = tbl, okAll
+	return tbl, okAll
 }
